@@ -147,6 +147,9 @@ def check(rule):
     for k, v in rule.items():
         typ = prop.vRecur.types.get(k, prop.vText)
         want = [typ(x).to_ical() for x in norm_vals(v)]
+        if k not in back:
+            msgs.append(f"part {k.upper()} of {text!r} is missing after decoding")
+            continue
         got = [typ(x).to_ical() for x in back[k]]
         if got != want:
             msgs.append(f"part {k}: decoded {back[k]!r} for supplied {v!r}")
